@@ -598,12 +598,14 @@ func (o *writeUDPOp) Ready() bool { return true }
 func (o *writeUDPOp) Do() {
 	n := o.s.n
 	o.data = cloneBytes(o.src)
+	from := o.s.srcAddr()
 	if o.s.closed {
+		// the program writes on a socket it has closed: nothing is sent, but where it meant to send is observed
 		o.err = &net.OpError{Op: "write", Net: "udp", Err: net.ErrClosed}
 		n.event("udp-write-closed", o.s.Local.String(), o.dst.String(), 0, "")
+		n.failedUDP(from, o, "closed")
 		return
 	}
-	from := o.s.srcAddr()
 	if !o.s.wdl.IsZero() && !time.Now().Before(o.s.wdl) {
 		o.err = &net.OpError{Op: "write", Net: "udp", Err: os.ErrDeadlineExceeded}
 		n.Fired["write-deadline-expired"]++
